@@ -485,7 +485,8 @@ def scripts_c09(tier, rng):
             pick += [starts[rng.below(len(starts))] for _ in range(min(k // 2, len(starts)))]
         for (fid, p) in pick:
             mask = rng.choice([1, 2, 4, 8, 16, 32, 64, 128, 255, 1])
-            tr = ["cfg tr=0"] if rng.chance(1, 3) else []
+            # reopen configurations: truncation disabled, tiny or zero read buffers
+            tr = rng.choice([["cfg tr=0"], ["cfg tr=0 rb=3"], ["cfg rb=0"], ["cfg rb=1"], [], [], []])
             out.append((f"{name}f{fid}p{p}m{mask}t{len(tr)}",
                         pre + tr + [f"fsop flip {fid} {p} {mask}", "dir", "open", "st", READALL, "dir"]))
         # every byte of the head record of one middle chunk, with a mask that makes lengths grow
@@ -506,6 +507,27 @@ def scripts_c09(tier, rng):
                 out.append((f"{name}rm{before[0]}cut{k}",
                             pre + [f"fsop rm {before[0]}", f"fsop cut {newest[0]} {k}", "dir", "open", "st", READALL,
                                    "dir"]))
+    # a purged chunk whose file is still there (the crash came between the acknowledged flush of the
+    # purge and the unlink) plus damage further on: the refused open must leave the old file alone too
+    left = []
+    for j in range(3 if tier == "quick" else 20):
+        mr = 3 + rng.below(2)
+        n = 3 * mr + rng.below(3)
+        left.append((f"c09p{j}", [f"cfg mr={mr}", "open", "app " + " ".join(f"1,{x},{gen.rnd_bytes_token(rng, [1, 7, 40])}" for x in range(n)),
+                                  "flush 1", "widle", f"purge 1 {mr - 1 + rng.below(2)}",
+                                  "app " + " ".join(f"1,{x},{gen.rnd_bytes_token(rng, [1, 7])}" for x in range(n, n + 2 * mr)),
+                                  "flush 77", "wack 77", "crash"]))
+    lays3 = layouts(left)
+    for name, pre in left:
+        lay = lays3.get(name, [])
+        if len(lay) < 4:
+            continue
+        for (fid, ln, du, bnd) in (lay[-1], lay[-2], lay[-3], lay[2]):
+            if bnd[-1] <= 0:
+                continue
+            p = rng.below(bnd[-1])
+            out.append((f"{name}f{fid}p{p}", pre + [f"fsop flip {fid} {p} {rng.choice([1, 16, 255])}", "dir", "open", "st", READALL, "dir"]))
+        out.append((f"{name}rm{lay[2][0]}", pre + [f"fsop rm {lay[2][0]}", "dir", "open", "st", READALL, "dir"]))
     # the read path: a record of a closed chunk altered while the store is live, entry not cached
     live = base_histories(rng, nb, max_ops=14, worker_steps=False, queries=(), payload_sizes=(1, 7, 40),
                           weights=dict(append=60, purge=2, truncate=3))
